@@ -116,6 +116,9 @@ def simple_ops():
         st.tuples(st.just('expired-queue-then'), st.sampled_from(['pull', 'peek', 'push', 'peekitem']), st.integers(0, 255)),
         # a live file-backed item is read by the call that also removes it (or only looks at it): the read-side fault sites
         st.tuples(st.just('file-item-then'), st.sampled_from(['pull', 'pull-back', 'peek', 'pop', 'get', 'peekitem']), st.integers(0, 255)),
+        # a few expired file-backed items and then writes that take the cache over its size limit (where it has one): the
+        # lazy cull of one write removes expired rows AND evicts by policy
+        st.tuples(st.just('mixed-cull'), st.integers(1, 4), st.integers(0, 255)),
     )
 
 
@@ -196,6 +199,14 @@ def apply_op(cache, clock, op, state):
                 cache.peekitem()
             except KeyError:
                 pass
+    elif name == 'mixed-cull':
+        for i in range(9):
+            cache.set('big%d' % i, bytes([op[2]]) * 8000)
+        for i in range(op[1]):
+            cache.set('mx%d' % i, bytes([op[2]]) * 300, expire=5)
+        clock.advance(10)
+        for i in range(3):
+            cache.set('late%d' % i, bytes([op[2]]) * 8000)
     elif name == 'file-item-then':
         what = op[1]
         if what in ('pop', 'get'):
